@@ -220,6 +220,10 @@ def run_unit(unit, rng, ctx):
             elif index == 'gaps':
                 df = df.reset_index(drop=True)
                 df.index = np.sort(rng.choice(5 * len(df), size=len(df), replace=False))
+            if rng.integers(3) == 0:
+                # the same table with its columns in another order (columns are addressed by name)
+                df = df[[COLS[i_] for i_ in rng.permutation(len(COLS))]]
+                ctx.count('injected_tables_with_permuted_columns')
             ctx.count(f'injected_table_order:{order}')
             ctx.count(f'injected_table_index:{index}')
             jj = Jumps(tr, conversion_method=lambda transitions, minimal_residence=0, _df=df: _df.copy())
